@@ -421,3 +421,262 @@ Proof.
   destruct (err_to_model_ok ty pl Eerr) as (m & Em); [rewrite Hh; lia|].
   rewrite Em. cbn [obind]. eexists. reflexivity.
 Qed.
+
+(** * addresses, by literal offsets *)
+
+Lemma be_val_app acc l : be_val acc l = acc * 256 ^ N.of_nat (length l) + be_val 0 l.
+Proof.
+  revert acc. induction l as [|a l IH]; intros acc.
+  - cbn [be_val length]. change (N.of_nat 0) with 0. rewrite N.pow_0_r. lia.
+  - cbn [be_val length]. rewrite IH. rewrite (IH (0 * 256 + a)).
+    rewrite Nat2N.inj_succ, N.pow_succ_r'. lia.
+Qed.
+
+Lemma be_val_lt (l : bytes) : bytes_ok l = true -> be_val 0 l < 256 ^ N.of_nat (length l).
+Proof.
+  induction l as [|a l IH]; intros H.
+  - cbn. lia.
+  - cbn [be_val length]. rewrite be_val_app. unfold bytes_ok in *. cbn [forallb] in H.
+    apply andb_prop in H. destruct H as [Ha Hl]. specialize (IH Hl). unfold byte_ok in Ha.
+    rewrite Nat2N.inj_succ, N.pow_succ_r'. nia.
+Qed.
+
+(** a 64-bit byte-aligned field *)
+Lemma rd_u64 v k :
+  bytes_ok v = true -> k + 8 <= blen v -> rd v (8 * k, 8 * 8) 64 = Ok (be_val 0 (sub v k (k + 8))).
+Proof.
+  intros Hb Hk. unfold rd.
+  assert (S : size_bytes (8 * k, 8 * 8) = 8) by (unfold size_bytes, byte_hi, byte_lo, r_end, r_start; cbn [fst snd]; lia).
+  assert (Ehi : byte_hi (8 * k, 8 * 8) = k + 8) by (unfold byte_hi, r_end; cbn [fst snd]; lia).
+  rewrite S, Ehi. change (8 <=? LANE_BYTES) with true. cbn [negb].
+  destruct (k + 8 <=? blen v) eqn:E; [|lia]. cbn [negb]. f_equal.
+  rewrite lane_read_aligned. pose proof (be_val_lt (sub v k (k + 8)) (bytes_ok_sub v _ _ Hb)) as L.
+  assert (Ls : length (sub v k (k + 8)) = 8%nat).
+  { unfold sub, blen in *. rewrite firstn_length, skipn_length. lia. }
+  rewrite Ls in L. change (256 ^ N.of_nat 8) with (2 ^ 64) in L.
+  unfold trunc. change (2 ^ (8 * 8)) with (2 ^ 64). rewrite (N.mod_small _ _ L). rewrite (N.mod_small _ _ L). reflexivity.
+Qed.
+
+(** the two address-type nibbles of byte 9 *)
+Lemma rd_nibbles v :
+  bytes_ok v = true -> 10 <= blen v ->
+  rd v CommonHeader_DST_ADDR_INFO_RNG 8 = Ok (nthN v 9 / 16) /\
+  rd v CommonHeader_SRC_ADDR_INFO_RNG 8 = Ok (nthN v 9 mod 16).
+Proof.
+  intros Hb Hl. pose proof (bytes_ok_nth v 9 Hb) as L9.
+  assert (S1 : sub v 9 10 = [nthN v 9]) by (apply (sub_1 v 9); lia).
+  split; unfold rd, lane_read;
+    [change (size_bytes CommonHeader_DST_ADDR_INFO_RNG <=? LANE_BYTES) with true;
+     change (byte_hi CommonHeader_DST_ADDR_INFO_RNG) with 10; change (byte_lo CommonHeader_DST_ADDR_INFO_RNG) with 9;
+     change (r_end CommonHeader_DST_ADDR_INFO_RNG) with 76; change (r_width CommonHeader_DST_ADDR_INFO_RNG) with 4
+    |change (size_bytes CommonHeader_SRC_ADDR_INFO_RNG <=? LANE_BYTES) with true;
+     change (byte_hi CommonHeader_SRC_ADDR_INFO_RNG) with 10; change (byte_lo CommonHeader_SRC_ADDR_INFO_RNG) with 9;
+     change (r_end CommonHeader_SRC_ADDR_INFO_RNG) with 80; change (r_width CommonHeader_SRC_ADDR_INFO_RNG) with 4];
+    cbn [negb]; (destruct (10 <=? blen v) eqn:E; [|lia]); cbn [negb]; f_equal;
+    rewrite S1; cbn [be_val]; rewrite N.land_ones, N.shiftr_div_pow2; unfold trunc.
+  - change (10 * 8 - 76) with 4. change (2 ^ 4) with 16. change (2 ^ 8) with 256. lia.
+  - change (10 * 8 - 80) with 0. change (2 ^ 0) with 1. change (2 ^ 4) with 16. change (2 ^ 8) with 256. lia.
+Qed.
+
+Lemma Wire_blen_sub (b : bytes) lo hi : hi <= blen b -> blen (sub b lo hi) = hi - lo.
+Proof. unfold blen, sub. rewrite firstn_length, skipn_length. lia. Qed.
+
+(** SCION host address of a literal (type nibble, raw bytes): IPv4, IPv6, service; every other
+    type is not a SCION host address *)
+Definition lit_host (nib : N) (raw : bytes) : option host_addr :=
+  if nib =? 0 then Some (HA_V4 raw)
+  else if nib =? 3 then Some (HA_V6 raw)
+  else if nib =? 4 then Some (HA_Svc (be_val 0 (firstn 2 raw)))
+  else None.
+
+Lemma hat_nib x : hat_size x = nib_len x.
+Proof.
+  unfold hat_size, nib_len.
+  assert (E0 : HAT_IPV4 = 0) by reflexivity. assert (E3 : HAT_IPV6 = 3) by reflexivity.
+  assert (E4 : HAT_SERVICE = 4) by reflexivity. rewrite E0, E3, E4.
+  destruct (x =? 0) eqn:A; [apply N.eqb_eq in A; subst; reflexivity|].
+  destruct (x =? 3) eqn:B; [apply N.eqb_eq in B; subst; reflexivity|].
+  destruct (x =? 4) eqn:C; [apply N.eqb_eq in C; subst; reflexivity|].
+  assert (E : N.land x 3 = x mod 4) by (change 3 with (N.ones 2); apply N.land_ones). rewrite E. reflexivity.
+Qed.
+
+Lemma decode_scion_host s raw :
+  blen raw = hat_size s -> scion_host (host_addr_decode s raw) = lit_host s raw.
+Proof.
+  intros Hl. unfold host_addr_decode, lit_host.
+  assert (E0 : HAT_IPV4 = 0) by reflexivity. assert (E3 : HAT_IPV6 = 3) by reflexivity.
+  assert (E4 : HAT_SERVICE = 4) by reflexivity. rewrite E0, E3, E4.
+  destruct (s =? 0) eqn:A.
+  { apply N.eqb_eq in A. subst s. change (hat_size 0) with 4 in Hl. rewrite Hl. reflexivity. }
+  destruct (s =? 3) eqn:B.
+  { apply N.eqb_eq in B. subst s. change (hat_size 3) with 16 in Hl. rewrite Hl. reflexivity. }
+  destruct (s =? 4) eqn:C.
+  { apply N.eqb_eq in C. subst s. change (hat_size 4) with 4 in Hl. rewrite Hl. cbn [N.eqb]. rewrite sub_firstn. reflexivity. }
+  destruct (blen raw <=? 16); reflexivity.
+Qed.
+
+Section Addresses.
+Variable v : bytes.
+Hypothesis R : raw_ok v.
+
+Lemma scion_addrs_literal :
+  src_scion_addr v
+  = Ok (match lit_host (sp_src_nib v) (sp_src_host v) with Some a => Some (sp_src_ia v, a) | None => None end) /\
+  dst_scion_addr v
+  = Ok (match lit_host (sp_dst_nib v) (sp_dst_host v) with Some a => Some (sp_dst_ia v, a) | None => None end).
+Proof.
+  destruct (raw_layout v R) as (l & Hl & _). destruct R as [Hb Hr].
+  destruct (hv_facts v l Hb Hl) as (A & B & C & D).
+  destruct (header_layout_addr v l Hl) as (d & s & pt & Ed & Es & Ep & Hoff & _). rewrite D in *.
+  destruct (rd_nibbles v Hb) as [Nd Ns]; [lia|]. rewrite Nd in Ed. rewrite Ns in Es.
+  inversion Ed; subst d. inversion Es; subst s. clear Ed Es.
+  assert (S12 : CommonHeader_SIZE_BYTES = 12) by reflexivity. rewrite S12 in *.
+  rewrite addr_hdr_size_val in Hoff.
+  assert (F : AddressHeader_FIXED_SIZE_BITS = 128) by reflexivity.
+  set (hl := 4 * nthN v 5) in *. set (hv := sub v 0 hl) in *.
+  set (dn := nthN v 9 / 16) in *. set (sn := nthN v 9 mod 16) in *.
+  assert (Hvb : bytes_ok hv = true) by (apply bytes_ok_sub; exact Hb).
+  split.
+  - unfold src_scion_addr. rewrite (raw_pkt_header v l Hb Hl). cbn [obind]. fold hl. fold hv.
+    unfold hv_src_host, hv_src_host_raw, hv_src_addr_type, hv_dst_addr_type.
+    rewrite !(hv_rd v l Hb Hl) by (vm_compute; discriminate). rewrite Nd, Ns. cbn [obind]. fold dn. fold sn.
+    unfold get_unchecked, src_host_rng, rshift, rng_of_range, byte_lo, byte_hi, r_start, r_end. cbn [fst snd].
+    rewrite F, S12. fold hl. fold hv. rewrite C.
+    match goal with |- context [(?a <=? ?b) && (?c <=? ?d)] => destruct ((a <=? b) && (c <=? d)) eqn:Q; [|lia] end.
+    cbn [obind fst snd].
+    match goal with |- context [sub hv ?lo ?hi] =>
+      replace lo with (28 + hat_size dn) by lia; replace hi with (28 + hat_size dn + hat_size sn) by lia end.
+    unfold hv. rewrite sub_sub_prefix by lia.
+    rewrite decode_scion_host by (rewrite Wire_blen_sub; lia).
+    unfold sp_src_host, sp_src_nib, sp_dst_nib, subN. fold dn. fold sn. rewrite <- !hat_nib.
+    change (firstn (N.to_nat (28 + hat_size dn + hat_size sn - (28 + hat_size dn))) (skipn (N.to_nat (28 + hat_size dn)) v))
+      with (sub v (28 + hat_size dn) (28 + hat_size dn + hat_size sn)).
+    destruct (lit_host sn (sub v (28 + hat_size dn) (28 + hat_size dn + hat_size sn))); [|reflexivity].
+    unfold hv_src_ia. change (rshift AddressHeader_SRC_IA_RNG CommonHeader_SIZE_BYTES) with (8 * 20, 8 * 8).
+    fold hv. rewrite (rd_u64 hv 20 Hvb) by lia. cbn [obind]. unfold hv. rewrite sub_sub_prefix by lia. reflexivity.
+  - unfold dst_scion_addr. rewrite (raw_pkt_header v l Hb Hl). cbn [obind]. fold hl. fold hv.
+    unfold hv_dst_host, hv_dst_host_raw, hv_src_addr_type, hv_dst_addr_type.
+    rewrite !(hv_rd v l Hb Hl) by (vm_compute; discriminate). rewrite Nd, Ns. cbn [obind]. fold dn. fold sn.
+    unfold get_unchecked, dst_host_rng, rshift, rng_of_range, byte_lo, byte_hi, r_start, r_end. cbn [fst snd].
+    rewrite F, S12. fold hl. fold hv. rewrite C.
+    match goal with |- context [(?a <=? ?b) && (?c <=? ?d)] => destruct ((a <=? b) && (c <=? d)) eqn:Q; [|lia] end.
+    cbn [obind fst snd].
+    match goal with |- context [sub hv ?lo ?hi] =>
+      replace lo with 28 by lia; replace hi with (28 + hat_size dn) by lia end.
+    unfold hv. rewrite sub_sub_prefix by lia.
+    rewrite decode_scion_host by (rewrite Wire_blen_sub; lia).
+    unfold sp_dst_host, sp_dst_nib, subN. fold dn. rewrite <- !hat_nib.
+    change (firstn (N.to_nat (28 + hat_size dn - 28)) (skipn (N.to_nat 28) v)) with (sub v 28 (28 + hat_size dn)).
+    destruct (lit_host dn (sub v 28 (28 + hat_size dn))); [|reflexivity].
+    unfold hv_dst_ia. change (rshift AddressHeader_DST_IA_RNG CommonHeader_SIZE_BYTES) with (8 * 12, 8 * 8).
+    fold hv. rewrite (rd_u64 hv 12 Hvb) by lia. cbn [obind]. unfold hv. rewrite sub_sub_prefix by lia. reflexivity.
+Qed.
+End Addresses.
+
+Lemma echo_reply_addresses_literal v p r :
+  raw_ok v -> echo_handle v p = Ok (Some r) ->
+  rp_dst_ia r = sp_src_ia v /\ lit_host (sp_src_nib v) (sp_src_host v) = Some (rp_dst_host r) /\
+  rp_src_ia r = sp_dst_ia v /\ lit_host (sp_dst_nib v) (sp_dst_host v) = Some (rp_src_host r).
+Proof.
+  intros R H.
+  destruct (echo_handle_some v p r H) as (sv & ty & dr & _ & _ & _ & _ & _ & _ & _ & _ & Hs & Hd & _).
+  destruct (scion_addrs_literal v R) as [Ls Ld]. rewrite Ls in Hs. rewrite Ld in Hd.
+  destruct (lit_host (sp_src_nib v) (sp_src_host v)); [|discriminate].
+  destruct (lit_host (sp_dst_nib v) (sp_dst_host v)); [|discriminate].
+  inversion Hs. inversion Hd. repeat split; reflexivity.
+Qed.
+
+Lemma scion_addr_some_literal v :
+  raw_ok v ->
+  ((exists a, src_scion_addr v = Ok (Some a)) <-> lit_host (sp_src_nib v) (sp_src_host v) <> None) /\
+  ((exists a, dst_scion_addr v = Ok (Some a)) <-> lit_host (sp_dst_nib v) (sp_dst_host v) <> None).
+Proof.
+  intros R. destruct (scion_addrs_literal v R) as [Ls Ld]. rewrite Ls, Ld.
+  clear Ls Ld. split; split.
+  - intros [a H]. revert H. destruct (lit_host (sp_src_nib v) (sp_src_host v)); intros H; [intros X; discriminate X|inversion H].
+  - intros H. destruct (lit_host (sp_src_nib v) (sp_src_host v)); [eexists; reflexivity|exfalso; apply H; reflexivity].
+  - intros [a H]. revert H. destruct (lit_host (sp_dst_nib v) (sp_dst_host v)); intros H; [intros X; discriminate X|inversion H].
+  - intros H. destruct (lit_host (sp_dst_nib v) (sp_dst_host v)); [eexists; reflexivity|exfalso; apply H; reflexivity].
+Qed.
+
+(** * statements used verbatim by [Props] *)
+
+Lemma echo_reply_payload_closed sv (r : reply) :
+  rd sv ScmpEchoRequest_IDENTIFIER_RNG 16 = Ok (rp_id r) ->
+  rd sv ScmpEchoRequest_SEQUENCE_NUMBER_RNG 16 = Ok (rp_seq r) ->
+  encode_echo_reply (rp_id r) (rp_seq r) (rp_data r) = Ok (rp_payload r) ->
+  rp_payload r = [129; 0; 0; 0] ++ be_bytes 2 (rp_id r) ++ be_bytes 2 (rp_seq r) ++ rp_data r.
+Proof.
+  intros H4 H5 H11. rewrite encode_echo_reply_closed in H11. inversion H11 as [E]. clear H11.
+  (* identifier and sequence number were read as 16-bit values *)
+  assert (T : forall x, rd sv ScmpEchoRequest_IDENTIFIER_RNG 16 = Ok x \/ rd sv ScmpEchoRequest_SEQUENCE_NUMBER_RNG 16 = Ok x -> trunc 16 x = x).
+  { intros x [Hx|Hx]; unfold rd in Hx;
+      destruct (negb _) in Hx; try discriminate; destruct (negb _) in Hx; try discriminate;
+      inversion Hx; unfold trunc; (rewrite N.mod_mod; [reflexivity|apply N.pow_nonzero; discriminate]). }
+  rewrite (T _ (or_introl H4)), (T _ (or_intror H5)). reflexivity.
+Qed.
+
+Lemma reply_iff_model (v : bytes) (p : dppath) :
+  (exists r, echo_handle v p = Ok (Some r)) <->
+  (exists sv, as_scmp v = Ok (Some sv) /\ scmp_type sv = Ok 128) /\
+  (exists rp, dp_reverse p = Some rp) /\
+  (exists a, src_scion_addr v = Ok (Some a)) /\ (exists a, dst_scion_addr v = Ok (Some a)).
+Proof.
+  assert (E : T_ECHO_REQUEST = 128) by reflexivity. split.
+  - intros [r H]. destruct (echo_handle_some v p r H) as (sv & ty & dr & H1 & H2 & H3 & _ & _ & _ & _ & H8 & H9 & H10 & _).
+    apply echo_answers_only_echo_request in H3. subst ty. rewrite E in H2.
+    refine (conj _ (conj _ (conj _ _))); eauto.
+  - intros [(sv & H1 & H2) [(rp & H3) [(sa & H4) (da & H5)]]]. rewrite <- E in H2.
+    exact (echo_handle_answers v p sv rp sa da H1 H2 H3 H4 H5).
+Qed.
+
+Lemma reply_iff_literal (v : bytes) (p : dppath) :
+  raw_ok v ->
+  ((exists r, echo_handle v p = Ok (Some r)) <->
+   spec_is_echo_request v = true /\
+   (exists rp, dp_reverse p = Some rp) /\
+   lit_host (sp_src_nib v) (sp_src_host v) <> None /\ lit_host (sp_dst_nib v) (sp_dst_host v) <> None).
+Proof.
+  intros R. destruct R as [Hb Hr]. rewrite reply_iff_model.
+  rewrite <- (echo_request_reading_is_literal v Hb Hr).
+  destruct (scion_addr_some_literal v (conj Hb Hr)) as [As Ad]. rewrite As, Ad.
+  assert (E : T_ECHO_REQUEST = 128) by reflexivity.
+  assert (Q : (exists sv, as_scmp v = Ok (Some sv) /\ scmp_type sv = Ok 128) <-> reads_as_echo_request v = true).
+  { unfold reads_as_echo_request. split.
+    - intros (sv & H1 & H2). rewrite H1, H2, E. reflexivity.
+    - destruct (as_scmp v) as [[sv|]| |]; try discriminate.
+      destruct (scmp_type sv) as [t| |] eqn:Et; try discriminate.
+      intros H. apply N.eqb_eq in H. rewrite E in H. subst t. exists sv. split; [reflexivity|exact Et]. }
+  rewrite Q. reflexivity.
+Qed.
+
+Lemma errors_literal_both_ways (we : bool) (b : N) (pkts : list (bytes * dppath)) :
+  (forall vp, In vp pkts -> bytes_ok (fst vp) = true /\ required_size_raw (fst vp) = Ok (blen (fst vp))) ->
+  (forall cb, In cb (errs_of (recv_stream we b pkts)) ->
+     exists v p, In (v, p) pkts /\ spec_is_known_error v = true /\
+                 e_ty (cb_msg cb) = sp_scmp_type v /\ err_quote v = Some (e_off (cb_msg cb))) /\
+  (forall v p, In (v, p) pkts -> spec_is_known_error v = true ->
+     exists cb, In cb (errs_of (recv_stream we b pkts)) /\
+                e_ty (cb_msg cb) = sp_scmp_type v /\ err_quote v = Some (e_off (cb_msg cb))).
+Proof.
+  intros Hraw. pose proof (recv_stream_never_panics we b pkts Hraw) as NP.
+  rewrite (errors_reach_receivers we b pkts NP). split.
+  - intros cb Hin. apply in_flat_map in Hin. destruct Hin as ([v p] & Hvp & Hcb). cbn [fst] in Hcb.
+    destruct (is_scmp v); [|destruct Hcb].
+    destruct (err_handle v) as [[cb'|]| |] eqn:E; cbn in Hcb; try contradiction.
+    destruct Hcb as [Hcb|[]]. subst cb'.
+    destruct (Hraw _ Hvp) as [Hb Hr]. cbn [fst] in Hb, Hr.
+    destruct (reported_error_is_literal v cb Hb Hr E) as (H1 & H2 & H3).
+    exists v, p. repeat split; assumption.
+  - intros v p Hin Hk. pose proof (Hraw _ Hin) as R. cbn [fst] in R.
+    destruct (known_error_reported v R Hk) as (cb & E). destruct R as [Hb Hr].
+    destruct (reported_error_is_literal v cb Hb Hr E) as (_ & H2 & H3).
+    exists cb. split; [|split; assumption].
+    apply in_flat_map. exists (v, p). split; [exact Hin|]. cbn [fst].
+    assert (Hs : is_scmp v = true).
+    { unfold is_scmp, nh_of. unfold required_size_raw, obind in Hr.
+      destruct (header_layout v) as [l| |] eqn:Hl; try discriminate.
+      rewrite (raw_pkt_header v l Hb Hl). cbn [obind]. rewrite (raw_next_header v l Hb Hl).
+      unfold spec_is_known_error in Hk. apply andb_prop in Hk. destruct Hk as [Hk _]. exact Hk. }
+    rewrite Hs, E. left. reflexivity.
+Qed.
